@@ -7,3 +7,6 @@ import "github.com/risor-io/risor/op"
 // verifStep is a verification hook. It is empty (and inlined away) unless the
 // package is built with -tags verif.
 func (vm *VirtualMachine) verifStep(opcode op.Code) {}
+
+func verifGo(phase int)                                {}
+func verifPoint(kind int, obj any, vm *VirtualMachine) {}
